@@ -523,4 +523,370 @@ theorem subOne_eq {signed dbg : Bool} {m low high : Nat} (hm : m = 2 * (m / 2)) 
     · rw [hws]; unfold toInt at *; split_ifs at * <;> omega
 
 
+/-- the arithmetic of an accepted draw: with `range = high - low + 1 ≠ 0 (mod m)` and `hi < range`,
+    `low.wrapping_add(hi)` has value `low + hi`, which lies in `[low, high]` -/
+theorem offset_in_range {signed : Bool} {m low high hi : Nat} (hm : m = 2 * (m / 2)) (hm2 : 2 ≤ m)
+    (hl : low < m) (hh : high < m) (hle : val signed m low ≤ val signed m high)
+    (h0 : rangeOf m low high ≠ 0) (hhi : hi < rangeOf m low high) :
+    (rangeOf m low high : Int) = val signed m high - val signed m low + 1 ∧
+    wrappingAdd m low hi < m ∧
+    val signed m (wrappingAdd m low hi) = val signed m low + hi := by
+  unfold rangeOf wrappingAdd wrappingSub at *
+  rw [mod_ite (x := high + m - low) (by omega)] at *
+  rw [mod_ite (x := _ + 1) (by split_ifs <;> omega)] at *
+  rw [mod_ite (x := low + hi) (by split_ifs at hhi <;> omega)]
+  cases signed
+  · simp only [val, Bool.false_eq_true, if_false] at *
+    split_ifs at * <;> omega
+  · simp only [val, if_true] at *
+    unfold toInt at *
+    split_ifs at * <;> omega
+
+/-- the full range: `range` wraps to `0` exactly when `[low, high]` is everything -/
+theorem full_range {signed : Bool} {m low high x : Nat} (hm : m = 2 * (m / 2))
+    (hl : low < m) (hh : high < m) (hle : val signed m low ≤ val signed m high)
+    (h0 : rangeOf m low high = 0) (hx : x < m) :
+    val signed m low ≤ val signed m x ∧ val signed m x ≤ val signed m high := by
+  unfold rangeOf wrappingAdd wrappingSub at *
+  rw [mod_ite (x := high + m - low) (by omega)] at *
+  rw [mod_ite (x := _ + 1) (by split_ifs <;> omega)] at *
+  cases signed
+  · simp only [val, Bool.false_eq_true, if_false] at *
+    split_ifs at * <;> omega
+  · simp only [val, if_true] at *
+    unfold toInt at *
+    split_ifs at * <;> omega
+
+
+theorem genVal_rest {k n : Nat} {s rest : Stream} {v : Nat}
+    (h : genVal (8 * k) n s = some (v, rest)) : rest = s.drop (n * k) ∧ n * k ≤ s.length := by
+  by_cases hl : n * k ≤ s.length
+  · rw [genVal_eq hl] at h
+    simp only [Option.some.injEq, Prod.mk.injEq] at h
+    exact ⟨h.2.symm, hl⟩
+  · rw [genVal_none (by omega)] at h; cases h
+
+theorem rejectLoop_succ (w n low range zone fuel : Nat) (s : Stream) :
+    rejectLoop w n low range zone (fuel + 1) s =
+      match genVal w n s with
+      | none => none
+      | some (v, rest) =>
+        if (v * range) % M w n ≤ zone then some (wrappingAdd (M w n) low ((v * range) / M w n), rest)
+        else rejectLoop w n low range zone fuel rest := rfl
+
+/-- what an accepted draw is: some word `v` of the stream with low part inside the zone, mapped to
+    `low + ⌊v·range/m⌋`; whole words were consumed -/
+theorem rejectLoop_some {k n low range zone fuel : Nat} {s rest : Stream} {x : Nat} (hok : StreamOK s)
+    (h : rejectLoop (8 * k) n low range zone fuel s = some (x, rest)) :
+    ∃ v j, v < M (8 * k) n ∧ (v * range) % M (8 * k) n ≤ zone ∧
+      x = wrappingAdd (M (8 * k) n) low ((v * range) / M (8 * k) n) ∧
+      1 ≤ j ∧ j * (n * k) ≤ s.length ∧ rest = s.drop (j * (n * k)) ∧
+      v = leValue ((s.drop ((j - 1) * (n * k))).take (n * k)) := by
+  induction fuel generalizing s with
+  | zero => cases h
+  | succ fuel ih =>
+    rw [rejectLoop_succ] at h
+    cases hg : genVal (8 * k) n s with
+    | none => rw [hg] at h; cases h
+    | some p =>
+      obtain ⟨v, r⟩ := p
+      rw [hg] at h
+      obtain ⟨hv, hr, hlen⟩ := genVal_lt hok hg
+      simp only at h
+      by_cases hz : (v * range) % M (8 * k) n ≤ zone
+      · rw [if_pos hz] at h
+        simp only [Option.some.injEq, Prod.mk.injEq] at h
+        refine ⟨v, 1, hv, hz, h.1.symm, Nat.le_refl 1, by omega, by rw [← h.2, hr, Nat.one_mul], ?_⟩
+        rw [genVal_eq hlen] at hg
+        simp only [Option.some.injEq, Prod.mk.injEq] at hg
+        simp [← hg.1]
+      · rw [if_neg hz] at h
+        obtain ⟨v', j, a, b, c, d, e, f, g⟩ := ih (hr ▸ hok.drop _) h
+        subst hr
+        rw [List.length_drop] at e
+        refine ⟨v', j + 1, a, b, c, by omega, by rw [Nat.succ_mul]; omega, ?_, ?_⟩
+        · rw [f, List.drop_drop, Nat.succ_mul]; congr 1; omega
+        · rw [g, List.drop_drop]; congr 3
+          obtain ⟨i, rfl⟩ : ∃ i, j = i + 1 := ⟨j - 1, by omega⟩
+          simp only [Nat.add_sub_cancel, Nat.succ_mul]; omega
+
+/-- the fuel `stream length + 1` is never what ends the loop: more fuel changes nothing -/
+theorem rejectLoop_fuel {k n low range zone fuel : Nat} {s : Stream} (hnk : 1 ≤ n * k)
+    (hf : s.length < fuel) :
+    rejectLoop (8 * k) n low range zone (fuel + 1) s = rejectLoop (8 * k) n low range zone fuel s := by
+  induction fuel generalizing s with
+  | zero => omega
+  | succ fuel ih =>
+    rw [rejectLoop_succ, rejectLoop_succ (fuel := fuel)]
+    cases hg : genVal (8 * k) n s with
+    | none => rfl
+    | some p =>
+      obtain ⟨v, r⟩ := p
+      obtain ⟨hr, hlen⟩ := genVal_rest hg
+      simp only
+      split
+      · rfl
+      · apply ih; rw [hr, List.length_drop]; omega
+
+theorem rejectLoop_fuel_ge {k n low range zone fuel : Nat} {s : Stream} (hnk : 1 ≤ n * k)
+    (hf : s.length + 1 ≤ fuel) :
+    rejectLoop (8 * k) n low range zone fuel s =
+      rejectLoop (8 * k) n low range zone (s.length + 1) s := by
+  induction fuel with
+  | zero => omega
+  | succ fuel ih =>
+    by_cases h : s.length + 1 ≤ fuel
+    · rw [rejectLoop_fuel hnk (by omega), ih h]
+    · have : fuel = s.length := by omega
+      rw [this]
+
+theorem hi_lt_range {m range v : Nat} (hr : range ≠ 0) (hv : v < m) : v * range / m < range := by
+  have hm : 0 < m := by omega
+  rw [Nat.div_lt_iff_lt_mul hm]
+  exact Nat.mul_comm range m ▸ Nat.mul_lt_mul_of_pos_right hv (Nat.pos_of_ne_zero hr)
+
+/-- every value returned by the rejection loop for `[low, high]` lies in `[low, high]` -/
+theorem rejectLoop_in_range {signed : Bool} {k n low high zone fuel : Nat} {s rest : Stream} {x : Nat}
+    (hW : 1 ≤ 8 * k * n) (hok : StreamOK s)
+    (hl : low < M (8 * k) n) (hh : high < M (8 * k) n)
+    (hle : val signed (M (8 * k) n) low ≤ val signed (M (8 * k) n) high)
+    (h0 : rangeOf (M (8 * k) n) low high ≠ 0)
+    (h : rejectLoop (8 * k) n low (rangeOf (M (8 * k) n) low high) zone fuel s = some (x, rest)) :
+    x < M (8 * k) n ∧ val signed (M (8 * k) n) low ≤ val signed (M (8 * k) n) x ∧
+      val signed (M (8 * k) n) x ≤ val signed (M (8 * k) n) high := by
+  obtain ⟨v, j, hv, _, hx, _⟩ := rejectLoop_some hok h
+  have hhi := hi_lt_range h0 hv
+  obtain ⟨a, b, c⟩ := offset_in_range (M_even' hW) (M_ge_two hW) hl hh hle h0 hhi
+  rw [← hx] at b c
+  generalize v * rangeOf (M (8 * k) n) low high / M (8 * k) n = hi at *
+  refine ⟨b, by omega, by omega⟩
+
+
+/-- membership in the inclusive range, on values -/
+def InRange (signed : Bool) (m low high x : Nat) : Prop :=
+  val signed m low ≤ val signed m x ∧ val signed m x ≤ val signed m high
+
+theorem le_cases (signed : Bool) (m a b : Nat) : le signed m a b = true ∨ le signed m a b = false := by
+  cases le signed m a b <;> simp
+theorem lt_cases (signed : Bool) (m a b : Nat) : lt signed m a b = true ∨ lt signed m a b = false := by
+  cases lt signed m a b <;> simp
+
+/-- a draw (full range or rejection loop with any zone) for `[low, high]` is in `[low, high]` -/
+theorem draw_in_range {signed : Bool} {k n low high zone : Nat} {s rest : Stream} {x : Nat}
+    (hW : 1 ≤ 8 * k * n) (hok : StreamOK s)
+    (hl : low < M (8 * k) n) (hh : high < M (8 * k) n)
+    (hle : le signed (M (8 * k) n) low high = true)
+    (h : (if rangeOf (M (8 * k) n) low high = 0 then genVal (8 * k) n s
+          else rejectLoop (8 * k) n low (rangeOf (M (8 * k) n) low high) zone (s.length + 1) s)
+        = some (x, rest)) :
+    x < M (8 * k) n ∧ InRange signed (M (8 * k) n) low high x := by
+  rw [val_le_iff] at hle
+  by_cases h0 : rangeOf (M (8 * k) n) low high = 0
+  · rw [if_pos h0] at h
+    obtain ⟨hx, _⟩ := genVal_lt hok h
+    exact ⟨hx, full_range (M_even' hW) hl hh hle h0 hx⟩
+  · rw [if_neg h0] at h
+    exact rejectLoop_in_range hW hok hl hh hle h0 h
+
+theorem sampleSingleInclusive_in_range {signed dbg : Bool} {k n low high : Nat} {s rest : Stream}
+    {x : Nat} (hW : 1 ≤ 8 * k * n) (hok : StreamOK s)
+    (hl : low < M (8 * k) n) (hh : high < M (8 * k) n)
+    (h : sampleSingleInclusive signed dbg (8 * k) n low high s = .ok (some (x, rest))) :
+    x < M (8 * k) n ∧ InRange signed (M (8 * k) n) low high x := by
+  rcases le_cases signed (M (8 * k) n) low high with hle | hle
+  · rw [sampleSingleInclusive_eq hW hle] at h
+    exact draw_in_range hW hok hl hh hle (Outcome.ok.inj h)
+  · rw [sampleSingleInclusive_panic hle] at h; cases h
+
+theorem uniformNewInclusiveSample_eq {signed dbg : Bool} {w n low high : Nat} {s : Stream}
+    (hW : 1 ≤ w * n) (hle : le signed (M w n) low high = true) :
+    uniformNewInclusiveSample signed dbg w n low high s =
+      .ok (if rangeOf (M w n) low high = 0 then genVal w n s
+           else rejectLoop w n low (rangeOf (M w n) low high)
+                  (zoneExact (M w n) (rangeOf (M w n) low high)) (s.length + 1) s) := by
+  unfold uniformNewInclusiveSample
+  rw [newInclusive_eq hW hle, Outcome.bind_ok,
+    sample_eq hW (rangeOf_lt (by have := M_ge_two hW; omega))]
+
+theorem uniformNewInclusiveSample_in_range {signed dbg : Bool} {k n low high : Nat} {s rest : Stream}
+    {x : Nat} (hW : 1 ≤ 8 * k * n) (hok : StreamOK s)
+    (hl : low < M (8 * k) n) (hh : high < M (8 * k) n)
+    (h : uniformNewInclusiveSample signed dbg (8 * k) n low high s = .ok (some (x, rest))) :
+    x < M (8 * k) n ∧ InRange signed (M (8 * k) n) low high x := by
+  rcases le_cases signed (M (8 * k) n) low high with hle | hle
+  · rw [uniformNewInclusiveSample_eq hW hle] at h
+    exact draw_in_range hW hok hl hh hle (Outcome.ok.inj h)
+  · rw [uniformNewInclusiveSample, newInclusive_panic hle] at h; cases h
+
+/-- `sample_single(low, high)` = `sample_single_inclusive(low, high - 1)`, no overflow in `high - 1` -/
+theorem sampleSingle_eq {signed dbg : Bool} {w n low high : Nat} {s : Stream}
+    (hW : 2 ≤ w * n) (hl : low < M w n) (hh : high < M w n)
+    (hlt : lt signed (M w n) low high = true) :
+    sampleSingle signed dbg w n low high s =
+      sampleSingleInclusive signed dbg w n low (wrappingSub (M w n) high 1) s := by
+  have h4 : 4 ≤ M w n := by
+    have := Nat.pow_le_pow_right (n := 2) (by decide) hW; simpa [M] using this
+  obtain ⟨a, _⟩ := subOne_eq (dbg := dbg) (M_even' (by omega)) h4 hl hh hlt
+  unfold sampleSingle
+  simp only [hlt, Bool.not_true, Bool.false_eq_true, if_false]
+  rw [a]; rfl
+
+theorem new_eq {signed dbg : Bool} {w n low high : Nat}
+    (hW : 2 ≤ w * n) (hl : low < M w n) (hh : high < M w n)
+    (hlt : lt signed (M w n) low high = true) :
+    new signed dbg w n low high = newInclusive signed dbg w n low (wrappingSub (M w n) high 1) := by
+  have h4 : 4 ≤ M w n := by
+    have := Nat.pow_le_pow_right (n := 2) (by decide) hW; simpa [M] using this
+  obtain ⟨a, _⟩ := subOne_eq (dbg := dbg) (M_even' (by omega)) h4 hl hh hlt
+  unfold new
+  simp only [hlt, Bool.not_true, Bool.false_eq_true, if_false]
+  rw [a]; rfl
+
+theorem sampleSingle_panic {signed dbg : Bool} {w n low high : Nat} {s : Stream}
+    (hlt : lt signed (M w n) low high = false) : sampleSingle signed dbg w n low high s = .panic := by
+  simp [sampleSingle, hlt]
+theorem new_panic {signed dbg : Bool} {w n low high : Nat}
+    (hlt : lt signed (M w n) low high = false) : new signed dbg w n low high = .panic := by
+  simp [new, hlt]
+
+/-- membership in the half-open range -/
+def InRangeExcl (signed : Bool) (m low high x : Nat) : Prop :=
+  val signed m low ≤ val signed m x ∧ val signed m x < val signed m high
+
+theorem sampleSingle_in_range {signed dbg : Bool} {k n low high : Nat} {s rest : Stream}
+    {x : Nat} (hW : 2 ≤ 8 * k * n) (hok : StreamOK s)
+    (hl : low < M (8 * k) n) (hh : high < M (8 * k) n)
+    (h : sampleSingle signed dbg (8 * k) n low high s = .ok (some (x, rest))) :
+    x < M (8 * k) n ∧ InRangeExcl signed (M (8 * k) n) low high x := by
+  rcases lt_cases signed (M (8 * k) n) low high with hlt | hlt
+  · have h4 : 4 ≤ M (8 * k) n := by
+      have := Nat.pow_le_pow_right (n := 2) (by decide) hW; simpa [M] using this
+    obtain ⟨_, b, c, d⟩ := subOne_eq (dbg := dbg) (M_even' (by omega)) h4 hl hh hlt
+    rw [sampleSingle_eq hW hl hh hlt] at h
+    obtain ⟨hx, h1, h2⟩ := sampleSingleInclusive_in_range (by omega) hok hl b h
+    exact ⟨hx, h1, by omega⟩
+  · rw [sampleSingle_panic hlt] at h; cases h
+
+theorem uniformNewSample_in_range {signed dbg : Bool} {k n low high : Nat} {s rest : Stream}
+    {x : Nat} (hW : 2 ≤ 8 * k * n) (hok : StreamOK s)
+    (hl : low < M (8 * k) n) (hh : high < M (8 * k) n)
+    (h : uniformNewSample signed dbg (8 * k) n low high s = .ok (some (x, rest))) :
+    x < M (8 * k) n ∧ InRangeExcl signed (M (8 * k) n) low high x := by
+  rcases lt_cases signed (M (8 * k) n) low high with hlt | hlt
+  · have h4 : 4 ≤ M (8 * k) n := by
+      have := Nat.pow_le_pow_right (n := 2) (by decide) hW; simpa [M] using this
+    obtain ⟨_, b, c, d⟩ := subOne_eq (dbg := dbg) (M_even' (by omega)) h4 hl hh hlt
+    have h' : uniformNewInclusiveSample signed dbg (8 * k) n low (wrappingSub (M (8 * k) n) high 1) s
+        = .ok (some (x, rest)) := by
+      rw [← h, uniformNewSample, uniformNewInclusiveSample, new_eq hW hl hh hlt]
+    obtain ⟨hx, h1, h2⟩ := uniformNewInclusiveSample_in_range (by omega) hok hl b h'
+    exact ⟨hx, h1, by omega⟩
+  · rw [uniformNewSample, new_panic hlt] at h; cases h
+
+/-- panics exactly on the empty range (both build modes) -/
+theorem sampleSingleInclusive_panic_iff {signed dbg : Bool} {w n low high : Nat} {s : Stream}
+    (hW : 1 ≤ w * n) :
+    sampleSingleInclusive signed dbg w n low high s = .panic ↔ le signed (M w n) low high = false := by
+  rcases le_cases signed (M w n) low high with hle | hle
+  · rw [sampleSingleInclusive_eq hW hle, hle]; simp
+  · rw [sampleSingleInclusive_panic hle, hle]; simp
+
+theorem sampleSingle_panic_iff {signed dbg : Bool} {w n low high : Nat} {s : Stream}
+    (hW : 2 ≤ w * n) (hl : low < M w n) (hh : high < M w n) :
+    sampleSingle signed dbg w n low high s = .panic ↔ lt signed (M w n) low high = false := by
+  rcases lt_cases signed (M w n) low high with hlt | hlt
+  · have h4 : 4 ≤ M w n := by
+      have := Nat.pow_le_pow_right (n := 2) (by decide) hW; simpa [M] using this
+    obtain ⟨_, b, c, d⟩ := subOne_eq (dbg := dbg) (M_even' (by omega)) h4 hl hh hlt
+    rw [sampleSingle_eq hW hl hh hlt, sampleSingleInclusive_eq (by omega) d, hlt]; simp
+  · rw [sampleSingle_panic hlt, hlt]; simp
+
+
+theorem val_inj {signed : Bool} {m a b : Nat} (ha : a < m) (hb : b < m)
+    (h : val signed m a = val signed m b) : a = b := by
+  cases signed
+  · simpa [val] using h
+  · simp only [val, if_true] at h; unfold toInt at h; split_ifs at h <;> omega
+
+/-- NUMBER OF PREIMAGES OF A VALUE.  For a non-full range `[low, high]`, a zone with
+    `range ∣ zone + 1`, `zone < m`: every `x ∈ [low, high]` is the image
+    `low.wrapping_add(⌊v·range/m⌋)` of exactly `(zone+1)/range` accepted words `v < m`. -/
+theorem preimage_count {signed : Bool} {m low high zone x : Nat} (hm : m = 2 * (m / 2)) (hm2 : 2 ≤ m)
+    (hl : low < m) (hh : high < m) (hle : val signed m low ≤ val signed m high)
+    (h0 : rangeOf m low high ≠ 0) (hz : zone < m) (hdvd : rangeOf m low high ∣ zone + 1)
+    (hx : x < m) (hin : InRange signed m low high x) :
+    countBelow (fun v => decide ((v * rangeOf m low high) % m ≤ zone ∧
+        wrappingAdd m low ((v * rangeOf m low high) / m) = x)) m = (zone + 1) / rangeOf m low high := by
+  obtain ⟨y, hy⟩ : ∃ y : Nat, (y : Int) = val signed m x - val signed m low :=
+    ⟨(val signed m x - val signed m low).toNat, by have := hin.1; omega⟩
+  have hr0 := (offset_in_range (hi := 0) hm hm2 hl hh hle h0 (Nat.pos_of_ne_zero h0)).1
+  have hyr : y < rangeOf m low high := by have := hin.2; omega
+  rw [← accept_count (m := m) (Nat.pos_of_ne_zero h0) hz hdvd hyr]
+  apply countBelow_congr
+  intro v hv
+  have hhi := hi_lt_range h0 hv
+  obtain ⟨_, b, c⟩ := offset_in_range hm hm2 hl hh hle h0 hhi
+  generalize v * rangeOf m low high / m = hi at *
+  have : wrappingAdd m low hi = x ↔ hi = y := by
+    constructor
+    · intro h; rw [h] at c; omega
+    · intro h; exact val_inj b hx (by rw [c, h]; omega)
+  simp only [this]
+
+theorem genVal_append {k n : Nat} {b t : Stream} (hb : b.length = n * k) :
+    genVal (8 * k) n (b ++ t) = some (leValue b, t) := by
+  rw [genVal_eq (by rw [List.length_append]; omega), ← hb, List.take_left', List.drop_left'] <;> rfl
+
+/-- one step of the rejection loop on a stream that starts with the word `b` -/
+theorem rejectLoop_word {k n low range zone fuel : Nat} {b t : Stream} (hb : b.length = n * k) :
+    rejectLoop (8 * k) n low range zone (fuel + 1) (b ++ t) =
+      if (leValue b * range) % M (8 * k) n ≤ zone
+      then some (wrappingAdd (M (8 * k) n) low ((leValue b * range) / M (8 * k) n), t)
+      else rejectLoop (8 * k) n low range zone fuel t := by
+  rw [rejectLoop_succ, genVal_append hb]
+
+/-- every accepted word is actually reachable: the one-word stream of `v` returns its image -/
+theorem rejectLoop_accepts {k n low range zone fuel v : Nat} (hv : v < M (8 * k) n)
+    (hacc : (v * range) % M (8 * k) n ≤ zone) :
+    rejectLoop (8 * k) n low range zone (fuel + 1) (ofNat 8 (n * k) v) =
+      some (wrappingAdd (M (8 * k) n) low ((v * range) / M (8 * k) n), []) := by
+  have hl : (ofNat 8 (n * k) v).length = n * k := ofNat_length _ _ _
+  have hv' : v < 256 ^ (n * k) := by
+    rw [M_eq_pow, B_eq_256, ← Nat.pow_mul, Nat.mul_comm k n] at hv; exact hv
+  have := rejectLoop_word (low := low) (range := range) (zone := zone) (fuel := fuel) (t := []) hl
+  rw [List.append_nil, leValue_ofNat, Nat.mod_eq_of_lt hv', if_pos hacc] at this
+  exact this
+
+/-- the build mode is irrelevant -/
+theorem sampleSingleInclusive_dbg {signed : Bool} {w n low high : Nat} {s : Stream} (hW : 1 ≤ w * n) :
+    sampleSingleInclusive signed true w n low high s = sampleSingleInclusive signed false w n low high s := by
+  rcases le_cases signed (M w n) low high with hle | hle
+  · rw [sampleSingleInclusive_eq hW hle, sampleSingleInclusive_eq hW hle]
+  · rw [sampleSingleInclusive_panic hle, sampleSingleInclusive_panic hle]
+
+theorem sampleSingle_dbg {signed : Bool} {w n low high : Nat} {s : Stream} (hW : 2 ≤ w * n)
+    (hl : low < M w n) (hh : high < M w n) :
+    sampleSingle signed true w n low high s = sampleSingle signed false w n low high s := by
+  rcases lt_cases signed (M w n) low high with hlt | hlt
+  · rw [sampleSingle_eq hW hl hh hlt, sampleSingle_eq hW hl hh hlt, sampleSingleInclusive_dbg (by omega)]
+  · rw [sampleSingle_panic hlt, sampleSingle_panic hlt]
+
+theorem uniformNewInclusiveSample_dbg {signed : Bool} {w n low high : Nat} {s : Stream} (hW : 1 ≤ w * n) :
+    uniformNewInclusiveSample signed true w n low high s =
+      uniformNewInclusiveSample signed false w n low high s := by
+  rcases le_cases signed (M w n) low high with hle | hle
+  · rw [uniformNewInclusiveSample_eq hW hle, uniformNewInclusiveSample_eq hW hle]
+  · simp only [uniformNewInclusiveSample, newInclusive_panic hle, Outcome.bind_panic]
+
+theorem uniformNewSample_dbg {signed : Bool} {w n low high : Nat} {s : Stream} (hW : 2 ≤ w * n)
+    (hl : low < M w n) (hh : high < M w n) :
+    uniformNewSample signed true w n low high s = uniformNewSample signed false w n low high s := by
+  rcases lt_cases signed (M w n) low high with hlt | hlt
+  · have := uniformNewInclusiveSample_dbg (signed := signed) (w := w) (n := n) (low := low)
+      (high := wrappingSub (M w n) high 1) (s := s) (by omega)
+    simp only [uniformNewSample, new_eq hW hl hh hlt]
+    exact this
+  · simp only [uniformNewSample, new_panic hlt, Outcome.bind_panic]
+
+
 end Bnum.Rand
